@@ -2,7 +2,7 @@
    Theorems only.  The store is generic in the element type of list options and in
    the printing/parsing functions (package net / time: environment); the
    instantiation for listen / profile / forwarder is below. *)
-From NX Require Import Bytes Config StoreFacts Forwarder Profile.
+From NX Require Import Bytes Config StoreFacts Forwarder Profile FwdText FwdTextFacts.
 Open Scope Z_scope.
 
 Section C17.
@@ -11,26 +11,29 @@ Section C17.
   Variable show : nat -> elem -> bytes.
   Variable parse : nat -> bytes -> option elem.
   Variable norm : nat -> bytes -> option bytes.
-  (* environment assumption: String() of an element parses back to it *)
-  Hypothesis parse_show : forall j e, parse j (show j e) = Some e.
+  (* environment assumption: String() of an element parses back to it -- for the
+     elements Set can put into a store ([good]); for the forwarder option this is the
+     theorem C17_forwarder_text below, not an assumption *)
+  Variable good : nat -> elem -> Prop.
+  Hypothesis parse_show : forall j e, good j e -> parse j (show j e) = Some e.
 
   (* every store in the form Set leaves it (scalars in canonical printed form, list
      options without two elements of the same criteria) is reloaded exactly from
      the lines Save writes: same scalars, same lists in the same order *)
   Theorem C17_roundtrip : forall s defaults,
-    wf_store elem same norm s -> length (scalars defaults) = length (scalars s) ->
+    wf_store elem same norm good s -> length (scalars defaults) = length (scalars s) ->
     lists defaults = map (fun _ => []) (lists s) ->
     load elem same parse norm defaults (save elem show s) = Some s.
-  Proof. exact (save_load elem same show parse norm parse_show). Qed.
+  Proof. exact (save_load elem same show parse norm good parse_show). Qed.
 
   (* config set of one scalar option (arguments, stored file, arguments again):
      the lists and every other scalar option are what was stored *)
   Theorem C17_set : forall s defaults o v c,
-    wf_store elem same norm s -> length (scalars defaults) = length (scalars s) ->
+    wf_store elem same norm good s -> length (scalars defaults) = length (scalars s) ->
     lists defaults = map (fun _ => []) (lists s) -> norm o v = Some c -> norm o c = Some c ->
     exists s', parse_cmd elem same parse norm defaults [Scalar o v] (save elem show s) = Some s' /\
       lists s' = lists s /\ forall o', o' <> o -> nth o' (scalars s') [] = nth o' (scalars s) [].
-  Proof. exact (set_scalar_others elem same show parse norm parse_show). Qed.
+  Proof. exact (set_scalar_others elem same show parse norm good parse_show). Qed.
 
   (* re-adding the elements of a list that Set produced, in order, reproduces it:
      nothing is replaced, dropped or reordered *)
@@ -50,6 +53,51 @@ Theorem C17_profiles_instance : forall ps p,
   pset ps p = set_elem profile (fun _ a b => same_criteria a b) 0 ps p.
 Proof. induction ps as [|q r IH]; intros p; cbn; [reflexivity|]. destruct (same_criteria p q); [reflexivity|]. rewrite IH. reflexivity. Qed.
 Print Assumptions C17_profiles_instance.
+
+(* ---- the forwarder option at the level of text (config/forwarder.go newResolver /
+   String, Model/FwdText.v): for every rule newResolver can produce -- whatever
+   resolver.New accepts ([valid]) -- String() is read back to the very same rule, so the
+   round trip of a store of forwarder lists holds without an environment assumption on
+   the element syntax ---- *)
+Theorem C17_forwarder_text : forall valid r,
+  frule_good valid r -> fwd_text_parse valid (fwd_text_show r) = Some r.
+Proof. exact fwd_text_roundtrip. Qed.
+Print Assumptions C17_forwarder_text.
+
+(* the replacement criterion of Forwarders.Set (same Domain) is visible in the stored line:
+   the text before the first '=' *)
+Theorem C17_forwarder_criterion : forall valid r1 r2, frule_good valid r1 -> frule_good valid r2 ->
+  (fst r1 = fst r2 <-> printed_cond (fwd_text_show r1) = printed_cond (fwd_text_show r2)).
+Proof. exact fwd_text_same. Qed.
+Print Assumptions C17_forwarder_criterion.
+
+Theorem C17_roundtrip_forwarders : forall valid norm s defaults,
+  wf_store frule (fun _ => frule_same) norm (fun _ => frule_good valid) s ->
+  length (scalars defaults) = length (scalars s) ->
+  lists defaults = map (fun _ => []) (lists s) ->
+  load frule (fun _ => frule_same) (fun _ => fwd_text_parse valid) norm defaults
+       (save frule (fun _ => fwd_text_show) s) = Some s.
+Proof.
+  intros valid norm. apply (C17_roundtrip frule (fun _ => frule_same) (fun _ => fwd_text_show)
+    (fun _ => fwd_text_parse valid) norm (fun _ => frule_good valid)).
+  intros _ e He. apply fwd_text_roundtrip. exact He.
+Qed.
+Print Assumptions C17_roundtrip_forwarders.
+
+(* the rule domain the text parser produces is the one the matcher of C10 works on *)
+Theorem C17_forwarder_domain : forall d, fqdn_text d = fqdn d.
+Proof. reflexivity. Qed.
+
+(* non-vacuity: a store holding two rules that newResolver produced is well formed *)
+Example C17_forwarders_nonvacuous :
+  let r1 := ([97;46], [49]) in let r2 := ([], [50]) in
+  wf_store frule (fun _ => frule_same) (fun _ v => Some v) (fun _ => frule_good (fun _ => true))
+           (mkStore [] [[r1; r2]]).
+Proof.
+  split; cbn; [constructor|]. constructor; [|constructor]. split.
+  - cbn. split; [constructor; [reflexivity | constructor] | split; [constructor | exact I]].
+  - constructor; [exists [97;61;49]; reflexivity | constructor; [exists [50]; reflexivity | constructor]].
+Qed.
 
 (* non-vacuity / the defects fixed in /repo:
    F14: a 16-bit parser in the stored-file path rejected values the command line accepts *)
